@@ -173,6 +173,14 @@ def gen_together(r, ncases, parallel):
         elif k == 0:
             # restart of all: nothing to analyse any more
             ops.append(f"su.together fans={','.join(r.shuffle(ids))} delays_us={','.join(str(r.range(0, 500)) for _ in ids)}")
+        elif k in (2, 3) and n >= 2:
+            # one fan has to be analysed again while the others, whose data are stored, start next to it and suffer a
+            # transient failure of a REPEATED look-up of their stored map (a concurrent `fan reset`, a briefly locked
+            # database): whatever they do about it, they must not analyse while the first fan's analysis is running
+            ops.append(f"su.reset fan={ids[0]}")
+            for fid in ids[1:]:
+                ops.append(f"su.flaky fan={fid} at={r.pick([2, 2, 3])}")
+            ops.append(f"su.together fans={','.join(ids)} delays_us={','.join(['0'] + [str(r.range(200, 3000)) for _ in ids[1:]])}")
         elif k == 1:
             # discard some, restart all: only those are analysed
             for fid in ids:
